@@ -182,21 +182,17 @@ static void mode_c0506(const Args &a, bool c06) {
 // ------------------------------------------------------------------------------------------------
 // C15
 // ------------------------------------------------------------------------------------------------
-static void mode_c15(const Args &a) {
-    int max_n = (int) a.geti("max_n", 30);
-    typedef std::back_insert_iterator<std::list<std::list<E>>> Out;
-    for (uint64_t i = a.from; i < a.to; i++) {
-        Rng r(case_seed(a.seed, "C15", i));
-        size_t k; GraphSpec s;
-        if (!a.replay.empty()) { std::ifstream in(a.replay); if (!parse_spec(in, s)) { emit_harness_failure("cannot parse replay spec"); exit(2); } k = (size_t) a.geti("k", 2); }
-        else { s = gen_approx_graph(r, max_n, k, false); if (r.chance(0.3)) k = (size_t) r.range(1, 6); }
-        CaseOut co(i);
-        G g; build_graph<double>(s, g); WM w = boost::get(boost::edge_weight, g);
-        EdgeIndex<double> idx(s, g);
-        std::string cj = acase(s, "BaseApproxSpannerAlgorithm", k);
+template<class GT>
+static void run_c15_case(const Args &a, CaseOut &co, const GraphSpec &s, size_t k, uint64_t i, const char *gtname) {
+    typedef typename boost::graph_traits<GT>::edge_descriptor ET;
+    typedef typename boost::property_map<GT, boost::edge_weight_t>::type WMT;
+    typedef std::back_insert_iterator<std::list<std::list<ET>>> Out;
+        GT g; build_graph_any<double>(s, g); WMT w = boost::get(boost::edge_weight, g);
+        EdgeIndex<double, GT> idx(s, g);
+        std::string cj = J().str("variant", "BaseApproxSpannerAlgorithm").str("graph_type", gtname).num("k", (ll) k).raw("graph", spec_json(s)).done();
         int n = s.n, m = s.m();
-        parmcb::detail::BaseApproxSpannerAlgorithm<G, WM, SpyExact<G, WM, Out>, false> algo(g, w, boost::get(boost::vertex_index, g), k);
-        const G &sp = algo.verif_spanner();
+        parmcb::detail::BaseApproxSpannerAlgorithm<GT, WMT, SpyExact<GT, WMT, Out>, false> algo(g, w, boost::get(boost::vertex_index, g), k);
+        const GT &sp = algo.verif_spanner();
         const auto &vmap = algo.verif_vertex_g_to_spanner();
         const auto &emap = algo.verif_edge_spanner_to_g();
         const auto &dropped = algo.verif_non_spanner_edges();
@@ -248,7 +244,7 @@ static void mode_c15(const Args &a) {
         }
         // what the exact phase really receives
         if (ok) {
-            std::list<std::list<E>> sink; g_spy = SpannerView(); g_spy.n = -1;
+            std::list<std::list<ET>> sink; g_spy = SpannerView(); g_spy.n = -1;
             try { algo.run(std::back_inserter(sink)); } catch (...) { }
             if (g_spy.n != n) fail("spy", "exact phase was not handed a graph on the input's vertex count");
             else {
@@ -265,6 +261,19 @@ static void mode_c15(const Args &a) {
         if (n_dropped) co.tag("has_dropped_edges"); if (girth != (1 << 30)) { co.tag("spanner_has_cycles"); if ((size_t) girth == 2 * k + 1) co.tag("girth==2k+1(tight)"); }
         if (s.tie_rich) co.tag("tie_rich");
         if ((int) (i - a.from) < a.samples) co.sample = J().raw("graph", spec_json(s, 40)).num("k", (ll) k).num("retained", kept_n).num("dropped", n_dropped).num("girth_or_-1", girth == (1 << 30) ? -1 : girth).done();
+    co.tag(std::string("graph_type:") + gtname);
+}
+
+static void mode_c15(const Args &a) {
+    int max_n = (int) a.geti("max_n", 30);
+    for (uint64_t i = a.from; i < a.to; i++) {
+        Rng r(case_seed(a.seed, "C15", i));
+        size_t k; GraphSpec s;
+        if (!a.replay.empty()) { std::ifstream in(a.replay); if (!parse_spec(in, s)) { emit_harness_failure("cannot parse replay spec"); exit(2); } k = (size_t) a.geti("k", 2); }
+        else { s = gen_approx_graph(r, max_n, k, false); if (r.chance(0.3)) k = (size_t) r.range(1, 6); }
+        bool idx_first = r.chance(0.3);
+        CaseOut co(i);
+        if (idx_first) run_c15_case<GraphIdxFirst>(a, co, s, k, i, "edge_index_before_edge_weight"); else run_c15_case<G>(a, co, s, k, i, "edge_weight_only");
         co.end();
         if (!a.replay.empty()) break;
     }
